@@ -29,10 +29,10 @@ Progs  == SetOf(ProgSeq)
 ExtKinds == {"ext_str", "ext_str_env", "ext_env_unset", "ext_str_file", "ext_str_file_missing",
              "ext_str_file_badutf8", "ext_str_file_malformed", "ext_code", "ext_code_file",
              "ext_code_lazy_unused", "ext_code_fail_used", "ext_code_syntax_unused",
-             "ext_code_syntax_used", "ext_unknown_used", "ext_dup", "ext_two"}
+             "ext_code_syntax_used", "ext_unknown_used", "ext_dup", "ext_two", "ext_str_empty"}
 TlaKinds == {"tla_str", "tla_str_env", "tla_env_unset", "tla_code", "tla_files", "tla_override",
              "tla_only_y", "tla_unknown", "tla_dup", "tla_lazy_unused", "tla_fail_used",
-             "tla_syntax_unused"}
+             "tla_syntax_unused", "tla_str_empty"}
 MiscKinds == {"stack_ok", "stack_bad", "trace_bad", "unknown_flag"}
 Kinds == {"none"} \cup ExtKinds \cup TlaKinds \cup MiscKinds
 KindSeq == <<"none", "ext_str", "ext_str_env", "ext_env_unset", "ext_str_file", "ext_str_file_missing",
@@ -41,7 +41,8 @@ KindSeq == <<"none", "ext_str", "ext_str_env", "ext_env_unset", "ext_str_file", 
              "ext_code_syntax_used", "ext_unknown_used", "ext_dup", "ext_two",
              "tla_str", "tla_str_env", "tla_env_unset", "tla_code", "tla_files", "tla_override",
              "tla_only_y", "tla_unknown", "tla_dup", "tla_lazy_unused", "tla_fail_used",
-             "tla_syntax_unused", "stack_ok", "stack_bad", "trace_bad", "unknown_flag">>
+             "tla_syntax_unused", "stack_ok", "stack_bad", "trace_bad", "unknown_flag",
+             "ext_str_empty", "tla_str_empty">>
 ASSUME SetOf(KindSeq) = Kinds
 
 FaultSeq == <<"none", "input_missing", "input_is_dir", "input_dangling", "stdin_closed",
